@@ -59,7 +59,7 @@ def match(source: str, pos: int) -> MatchResult:
         elif token_type == TokenType.PropertyValue:
             pending = pending_property[0]
             if pending and pending[0] < pos < end:
-                result[0] = MatchResult('property', pending[0], delimiter + 1, start, end)
+                result[0] = MatchResult('property', pending[0], delimiter + 1 if delimiter != -1 else end, start, end)
                 return False
             release_pending()
 
